@@ -159,6 +159,7 @@ func checkC03(c *Ctx) {
 	}
 	nPerm, nThresh := 0, 0
 	var counter *ssa.Phi
+	counters := map[*ssa.Phi]bool{}
 	eachInstr(rf, func(in ssa.Instruction) {
 		ifi, ok := in.(*ssa.If)
 		if !ok {
@@ -192,6 +193,7 @@ func checkC03(c *Ctx) {
 					if ph != nil && inLoop(ph.Block()) {
 						nThresh++
 						counter = ph
+						counters[ph] = true
 						edge := 0
 						if !l.Truth {
 							edge = 1
@@ -209,6 +211,12 @@ func checkC03(c *Ctx) {
 	}
 	if nThresh == 0 {
 		c.viol("R2", "transient failures: demote at the third", firstInstr(rf), "no `counter+1 >= 3` test on a loop-carried counter found in the refresh loop")
+	}
+	// one counter for every kind of failed attempt: with a counter per kind (time-outs here, errors
+	// there) a partition in which attempts first hang and then fail at once takes up to twice the
+	// three attempts before the leader steps down
+	if len(counters) > 0 {
+		c.check(len(counters) == 1, "R2", "failed attempts are counted on one counter", counter, "%d distinct loop-carried counters are compared with the failure threshold (required: 1)", len(counters))
 	}
 	if counter != nil {
 		// leaves of the counter phi
@@ -322,6 +330,23 @@ func checkC03(c *Ctx) {
 				if g := x.Call.StaticCallee(); g != nil && m.isLib(g) && m.mayDemote(g, specFor(x, g), 0) {
 					return true
 				}
+				// a phase of the loop body in a function of its own that issues the refresh on
+				// every one of its paths (updateRecordWithTimeout: make channel, go Update, wait)
+				if g := x.Call.StaticCallee(); g != nil && g != rf && containsFn(m.bodyFns(rf), g) && len(g.Blocks) > 0 {
+					issues := func(y ssa.Instruction) bool {
+						if _, ok := m.isKVCall(valueOf(y), ""); ok {
+							return true
+						}
+						return m.spawnsStoreOp(y)
+					}
+					first := g.Blocks[0].Instrs[0]
+					if issues(first) {
+						return true
+					}
+					if ok, _ := mustFollow(first, issues, nil); ok {
+						return true
+					}
+				}
 			}
 		}
 		return false
@@ -422,7 +447,7 @@ func checkC03(c *Ctx) {
 
 	// ---- R3 -----------------------------------------------------------------------
 	n3 := 0
-	eachInstr(rf, func(in ssa.Instruction) {
+	m.eachUnitInstr(rf, func(in ssa.Instruction) {
 		issue := false
 		if _, ok := m.isKVCall(valueOf(in), ""); ok {
 			issue = true
@@ -430,11 +455,13 @@ func checkC03(c *Ctx) {
 		if m.spawnsStoreOp(in) {
 			issue = true
 		}
-		if !issue || !inLoop(in.Block()) {
+		// in the loop function, or in a function the loop body was split into
+		lifted := m.liftTo(rf, in)
+		if !issue || lifted == nil || !inLoop(lifted.Block()) {
 			return
 		}
 		n3++
-		gs := m.GuardsAt(in)
+		gs := m.unitGuards(rf, in)
 		c.check(m.claimLit(gs, true), "R3", fmt.Sprintf("store operation #%d of the refresh loop only under a standing claim", n3), in, "claim == true among the guards: %v", m.claimLit(gs, true))
 	})
 	if n3 < 1 {
